@@ -6,7 +6,9 @@
 * expected answers from splscope's bindings (the ORACLE: computed from the derivation only);
 * a pipelined driver for the real server (requests of one document are written in windows, responses are read in
   order; the server answers strictly sequentially, so the first unanswered request is the one that made it mute);
-* the extracted / kernel judge commands 30-36 (layout: cmd npos (line col)* text - see coq/theories/Judge/RunNav.v).
+* the extracted / kernel judge commands 30-36 (layout: cmd npos (line col)* text - see coq/theories/Judge/RunNav.v);
+* judge command 37: the instances of the Coq statements C12_full_statement / C13_full_statement (Spec/Nav.v) on a
+  document, decided by the extracted model (full_statement_instances).
 """
 import json
 import os
@@ -138,15 +140,16 @@ def rename_local(d, old, new):
             [(new if n == old else n, t) for n, t in vars_], [_rn_stmt(s, old, new) for s in stmts])
 
 
-def shadow_variants(prog, rng):
-    """renames locals so that they collide with (a) the enclosing procedure, (b) a type, (c) another procedure
-    (user-defined or predefined) - all legal in SPL (locals shadow globals; a declaration's own type expression is
-    resolved before the name is entered).  Returns (prog, list of kinds applied)."""
+def shadow_variants(prog, rng, p=0.3):
+    """renames locals so that they collide with (a) the enclosing procedure, (b) a type (or `int`), (c) another
+    procedure (user-defined or predefined) - all legal in SPL (locals shadow globals; a declaration's own type
+    expression is resolved before the name is entered).  Each kind is applied with probability p.  These are the
+    classes of the findings repaired by /repo b909979.  Returns (prog, list of kinds applied)."""
     prog = list(prog)
     applied = []
     procs = [i for i, d in enumerate(prog) if d[0] == "proc"]
     for kind in ("own-proc", "type", "other-proc"):
-        if not procs or rng.random() >= 0.3:
+        if not procs or rng.random() >= p:
             continue
         pi = rng.choice(procs)
         _, pname, params, vars_, stmts = prog[pi]
@@ -165,7 +168,7 @@ def shadow_variants(prog, rng):
             new = rng.choice(cands)
             ok = new not in called
         else:
-            cands = [d[1] for d in prog[:pi] if d[0] == "type"] + (["int"] if rng.random() < 0.15 else [])
+            cands = [d[1] for d in prog[:pi] if d[0] == "type"] + (["int"] if rng.random() < 0.3 else [])
             if not cands:
                 continue
             new = rng.choice(cands)
@@ -244,12 +247,12 @@ def xref_program(rng):
     return prog
 
 
-def valid_doc(rng, ndecls=None, xref=False):
+def valid_doc(rng, ndecls=None, xref=False, p_shadow=0.3):
     if xref:
         prog = xref_program(rng)
     else:
         prog, _ = splgen.well_typed_program(rng, ndecls=ndecls)
-    prog, variants = shadow_variants(prog, rng)
+    prog, variants = shadow_variants(prog, rng, p_shadow)
     tokens = splgen.flatten(prog)
     newline = rng.choice(["\n", "\n", "\r\n"])
     text = splgen.render(tokens, rng, comments=rng.choice([0.0, 0.08, 0.25]), dense=rng.random() < 0.12, newline=newline)
@@ -626,6 +629,124 @@ def same(method, a, b):
     return a == b
 
 
+def _spread(judge, lines, costs, procs=14):
+    """runs the judge lines spread over `procs` processes by estimated cost; outputs in order"""
+    order = sorted(range(len(lines)), key=lambda i: -costs[i])
+    shards = [[] for _ in range(max(1, min(procs, len(lines))))]
+    load = [0] * len(shards)
+    for i in order:
+        k = load.index(min(load))
+        shards[k].append(i)
+        load[k] += costs[i]
+    outs = [None] * len(lines)
+    with ThreadPoolExecutor(len(shards)) as ex:
+        for shard, r in zip(shards, ex.map(lambda sh: common.run_lines(judge, [lines[i] for i in sh], jobs=1), shards)):
+            for i, o in zip(shard, r):
+                outs[i] = o
+    return outs
+
+
+def full_line(sel, text):
+    return " ".join(map(str, [37, sel] + [ord(ch) for ch in text]))
+
+
+def decode_full(line):
+    """judge command 37 -> dict(wf, clean, offsets, bad12, bad13) or raises"""
+    n = [int(x) for x in line.split()]
+    if len(n) < 3 or n[0] not in (0, 7):
+        raise ValueError("model outcome %r (3: AnalyzedSource::new panics in the model, 2: fuel, 4: malformed command)" % (n[:1],))
+    k = n[2]
+    offs = n[3:3 + k]
+    i = 3 + k
+    k12 = n[i]
+    bad12 = n[i + 1:i + 1 + k12]
+    i += 1 + k12
+    k13 = n[i]
+    bad13 = n[i + 1:i + 1 + k13]
+    if i + 1 + k13 != len(n):
+        raise ValueError("trailing numbers")
+    return dict(wf=n[0] == 0, clean=n[1] == 1, offsets=offs, bad12=bad12, bad13=bad13)
+
+
+FULL_MAX_CHARS = 3500
+
+
+def full_statement_instances(ctx, pid, judge, camp, sel, what):
+    """The Coq statement itself (Spec/Nav.v: C12_full_statement for sel = 1, C13_full_statement for sel = 2), decided
+    by the extracted model at every occurrence (first and last column) of every valid document of the campaign of at
+    most FULL_MAX_CHARS characters and of the short valid documents.  Also checks that Nav.occurrences enumerates
+    exactly the identifier tokens of the generated program (so no occurrence escapes the statement) and that
+    `clean_doc` holds exactly where the server publishes no diagnostics.  Failing instances are VIOLATIONs with the
+    server's answers at that position.  Returns (stats, kernel cases)."""
+    key = "bad12" if sel == 1 else "bad13"
+    idx = [i for i, (d, _) in enumerate(camp.items) if d.kind in ("valid", "short-valid") and len(d.text) <= FULL_MAX_CHARS]
+    too_long = sum(1 for d, _ in camp.items if d.kind == "valid" and len(d.text) > FULL_MAX_CHARS)
+    lines = [full_line(sel, camp.items[i][0].text) for i in idx]
+    costs = [(len(camp.items[i][0].text) + 50) ** 2 for i in idx]
+    stats = dict(documents=0, occurrences=0, failing_instances=0, occurrence_set_mismatches=0, clean_mismatches=0,
+                 not_clean_documents=0, documents_too_long=too_long, errors=0)
+    kernel = []
+    try:
+        outs = _spread(judge, lines, costs)
+    except RuntimeError as e:
+        ctx.violation(dict(kind="correspondence", property=pid, what="judge command 37 could not be evaluated", error=str(e)[:500]), no_input=True)
+        stats["errors"] += 1
+        return stats, kernel
+    reported = 0
+    for i, line, o in zip(idx, lines, outs):
+        d, pts = camp.items[i]
+        diags = camp.server[i][0]
+        try:
+            r = decode_full(o)
+        except (ValueError, IndexError) as e:
+            stats["errors"] += 1
+            if reported < 3:
+                ctx.violation(dict(kind="full-statement-instance", property=pid, text=d.text, sel=sel, what="judge command 37: %s" % e))
+                reported += 1
+            continue
+        if len(d.text) <= 200 and len(kernel) < 40:
+            kernel.append(([int(x) for x in line.split()], [int(x) for x in o.split()]))
+        if diags is MUTE:
+            continue
+        if r["clean"] != (diags == []) or not r["wf"]:
+            stats["clean_mismatches"] += 1
+            if reported < 3:
+                ctx.violation(dict(kind="full-statement-instance", property=pid, text=d.text, sel=sel, server_diagnostics=diags, model=r,
+                                   what="the model's clean_doc / nav_wf_b and the server's diagnostics disagree"))
+                reported += 1
+            continue
+        if not r["clean"]:
+            stats["not_clean_documents"] += 1
+            continue
+        stats["documents"] += 1
+        stats["occurrences"] += len(r["offsets"])
+        if d.kind == "valid":
+            mine = sorted(len(d.text[:d.spans[k][0]].encode("utf-8")) for k, t in enumerate(d.tokens) if is_ident(t))
+            if sorted(r["offsets"]) != mine:
+                stats["occurrence_set_mismatches"] += 1
+                if reported < 3:
+                    ctx.violation(dict(kind="full-statement-instance", property=pid, text=d.text, sel=sel, model_offsets=sorted(r["offsets"]),
+                                       identifier_offsets=mine,
+                                       what="Nav.occurrences does not enumerate exactly the identifier tokens of the program"))
+                    reported += 1
+        for j in r[key]:
+            stats["failing_instances"] += 1
+            if reported < 3:
+                off = r["offsets"][j]
+                ci = len(d.text.encode("utf-8")[:off].decode("utf-8", "ignore"))
+                l, c = d.pos[ci]
+                methods = camp.methods
+                got = run_docs(camp.exe, [("file:///full.spl", d.text, [(m, l, c) for m in methods])], workers=1)[0][1]
+                k = next((k for k, (a, b) in enumerate(d.spans) if a == ci), None) if d.kind == "valid" else None
+                ctx.violation(dict(kind="full-statement-instance", property=pid, text=d.text, sel=sel, occurrence=j, line=l, col=c,
+                                   token=(d.tokens[k] if k is not None else None),
+                                   server={m: a for m, a in zip(methods, got)},
+                                   expected_by_the_derivation=({m: expected(d, m, k) for m in methods} if k is not None else None),
+                                   what=what))
+                reported += 1
+    return stats, kernel
+
+
 # ------------------------------------------------------------------------------------------------
 # the campaign shared by C12 and C13: documents, requests, server, model, comparison, oracle
 
@@ -639,7 +760,8 @@ def gen_valid_docs(rng, budget):
     while cost < budget:
         small = cost < 0.4 * budget
         xref = not small and cost < 0.75 * budget
-        d = valid_doc(rng, ndecls=rng.choice([1, 2, 2, 2] if small else [3, 3, 4, 5, 6]), xref=xref)
+        d = valid_doc(rng, ndecls=rng.choice([1, 2, 2, 2] if small else [3, 3, 4, 5, 6]), xref=xref,
+                      p_shadow=rng.choice([0.3, 0.3, 0.6]))
         if small and len(d.text) > 1800:
             continue
         d.every_column = len(d.text) <= 2600
@@ -893,6 +1015,17 @@ def replay_request(ctx, path):
     """./check CXX --replay file: re-runs the recorded request; exit status 0 when the server now gives the
     expected answer"""
     r = json.load(open(path))
+    if r.get("kind") == "full-statement-instance" and "text" in r:
+        judge, _ = common.build_judge()
+        o = common.run_lines(judge, [full_line(r.get("sel", 3), r["text"])], jobs=1)[0]
+        print("judge command 37:", o[:400])
+        try:
+            res = decode_full(o)
+        except (ValueError, IndexError) as e:
+            print("unreadable:", e)
+            return 1
+        print(res)
+        return 0 if res["wf"] and not res["bad12"] and not res["bad13"] and "offsets" not in r.get("what", "") else 1
     if "text" not in r or "method" not in r:
         print(json.dumps(r, indent=1)[:4000])
         return 1
